@@ -416,11 +416,21 @@ fn execute(idx: usize, sc: &Scenario, pay: &Arc<Vec<u8>>, rt: &tokio::runtime::R
         }
     }
     let inner_reads = sh.lock().unwrap().ab.inner_reads;
-    let light = inner_reads <= LIGHT_MAX;
     let p = &sc.plan;
+    // ghost data of the attacker: when the attack has happened (ea) and the first frame it really
+    // changed (ef), the latter from comparing the real byte streams
+    let ef = sh.lock().unwrap().ab.first_affected_frame();
+    let ea = match p.kind.as_str() {
+        "none" => 0,
+        "replay" => p.i + p.x,
+        _ => p.i,
+    };
+    let model_ef = if p.kind == "replay" { p.i + p.x + 1 } else { p.i };
+    // a coincidence (e.g. the byte shifted in by a truncation equals the one removed) is outside the ideal-AEAD Impl model
+    let light = inner_reads <= LIGHT_MAX && (ef == 0 || ef == model_ef);
     let reset = json!({"e": "reset", "b": idx, "src": sc.src, "light": light,
         "cfg": {"MSG": MSG, "TAG": TAG, "R": sc.r, "W": sc.w, "CHUNK": MAX_FRAME_LEN},
-        "plan": {"kind": p.kind, "i": p.i, "x": p.x, "y": p.y},
+        "plan": {"kind": p.kind, "i": p.i, "x": p.x, "y": p.y, "ea": ea, "ef": ef},
         "pcm": sc.per_call_max, "inner_reads": inner_reads})
     .to_string();
     let mut lines = vec![reset];
